@@ -284,6 +284,10 @@ type c07LogEntry struct {
 	Msg   robust.Message
 	// Undecodable: the panic text when the stored bytes do not decode
 	Undecodable string
+	// raft's own fields of the durable entry
+	Term uint64
+	At   int64
+	Ext  string
 }
 
 func c07ReadLog(dir string, pb bool) ([]c07LogEntry, error) {
@@ -316,7 +320,7 @@ func c07ReadLog(dir string, pb bool) ([]c07LogEntry, error) {
 			}()
 			m = robust.NewMessageFromBytes(l.Data, robust.IdFromRaftIndex(l.Index))
 		}()
-		out = append(out, c07LogEntry{Index: i, Type: m.Type, Raw: base64.StdEncoding.EncodeToString(l.Data), Msg: m, Undecodable: undecodable})
+		out = append(out, c07LogEntry{Index: i, Type: m.Type, Raw: base64.StdEncoding.EncodeToString(l.Data), Msg: m, Undecodable: undecodable, Term: l.Term, At: l.AppendedAt.UnixNano(), Ext: string(l.Extensions)})
 	}
 	return out, nil
 }
@@ -411,6 +415,15 @@ func TestVerifC07(t *testing.T) {
 				}
 				rep(kind, fmt.Sprintf("index %d: %s", le.Index, le.Undecodable))
 				continue
+			}
+			// raft's own fields: marking rewrites the message, not the entry (a changed term makes raft treat the
+			// entry as conflicting and replace it by the leader's unmarked copy)
+			if want := (&c02World{}).raftLog(o); le.Term != want.Term || le.At != want.AppendedAt.UnixNano() || le.Ext != string(want.Extensions) {
+				kind := "raft fields (term / append time / extensions) of a durable entry changed"
+				if le.Index == crashId {
+					kind = "marking the message of death changed the raft fields (term / append time / extensions) of the entry"
+				}
+				rep(kind, fmt.Sprintf("index %d: term %d (want %d), appended at %d (want %d), extensions %q", le.Index, le.Term, want.Term, le.At, want.AppendedAt.UnixNano(), le.Ext))
 			}
 			if le.Index == crashId {
 				if le.Type != robust.MessageOfDeath {
